@@ -541,6 +541,19 @@ func checkC09(p *Prog, rp *Report) {
 				problems = append(problems, "fields next to an empty required field are not decoded")
 			}
 		}
+		// field names are matched byte for byte: a field that differs in case is an unknown field
+		r = newC09Run(p)
+		if obj, isErr, why := r.unmarshal(full, "name: lower\nNeeded: n\nx-wire-name: w\nCOUNT: 9\n"); !note(why) {
+			if isErr {
+				problems = append(problems, "a document with fields that differ from known ones only in case is rejected")
+			} else if f := fieldsOf(r.st, full, obj, nil); f["Name"] != `""` || f["Wire"] != `""` || f["Count"] != "i0" {
+				problems = append(problems, fmt.Sprintf("fields that differ in case from the struct's field names are decoded into them (Name=%s Wire=%s Count=%s): unknown fields must stay unknown", f["Name"], f["Wire"], f["Count"]))
+			}
+		}
+		r = newC09Run(p)
+		if _, isErr, why := r.unmarshal(full, "Name: x\nneeded: n\n"); !note(why) && !isErr {
+			problems = append(problems, "a required field spelled in another case satisfies the requirement")
+		}
 		if undecided != "" {
 			req.undecided("decoder:required", pos, undecided)
 		} else {
